@@ -880,7 +880,7 @@ func (c *Client) ActivateSession(ctx context.Context, s *Session) error {
 	sig, sigAlg, err := sc.NewSessionSignature(s.serverCertificate, s.serverNonce)
 	if err != nil {
 		log.Printf("error creating session signature: %s", err)
-		return nil
+		return err
 	}
 
 	switch tok := s.cfg.UserIdentityToken.(type) {
